@@ -148,7 +148,7 @@ func c13(c *rig.Ctx) {
 		"their logical match set (contiguous ranges) are used, so both readings coincide")
 	c.Assume("value tuples are canonical (builder-made), so byte-different values never compare equal under the value descriptor")
 	st := newStats()
-	n := c.Pick(400, 8000)
+	n := c.Pick(400, 20000)
 	parallel(n, workers, func(i int) { c13Pair(c, st, i, n) })
 	st.flush(c)
 	c.Require(st.get("c13.pairs.different_heights") > 0, "no pair with different tree heights")
